@@ -70,6 +70,7 @@ def begin_lines(c, label, pre=None):
 
 def plan(c):
     return ([("U",)] + [("AB", K, fmt) for K in c["Ks"] for fmt in c["fmts"]] + [("Q", K) for K in c.get("auto_Ks", [])]
+            + [("M", K, fmt) for K, fmt in c.get("buffer_Ks", [])]
             + [("R", K) for K in c.get("boundary_Ks", [])])
 
 
@@ -113,6 +114,18 @@ def scenario(c, d, runs=None):
             for t in range(K, T):
                 L += step_lines(c, t)
             L += ["save text %sQB_%d.colvars.state" % (pre, K)]
+        elif run[0] == "M":
+            # the state travels as a buffer in memory (checkpoint of the engine, `cv savetostring`), not as a file
+            _, K, fmt = run
+            L += begin_lines(c, "MA_%d_%s" % (K, fmt), pre)
+            for t in range(K + 1):
+                L += step_lines(c, t)
+            L += ["bufsave %s" % fmt]
+            L += begin_lines(c, "MB_%d_%s" % (K, fmt), pre)
+            L += ["bufload %s" % fmt]
+            for t in range(K, T):
+                L += step_lines(c, t)
+            L += ["save text %sMB_%d_%s.colvars.state" % (pre, K, fmt)]
         elif run[0] == "R":
             # run boundary without reloading: the engine ends a run after step K and starts the next one in the same
             # session, which computes step K again (simulation continuing) and goes on
